@@ -16,25 +16,38 @@
       * `constant_unary_iff`/`constant_unary_type`, `constant_binary_iff`/`constant_binary_type`
                                                               the same for the constant folder (value errors are not type errors)
       * `const_dyn_consistent`, `const_dyn_consistent_unary`  CONSISTENCY of the two paths, with the exact exceptions:
-        `qstring_constants_overrejected`, `i64min_rem_overrejected` (a value), `null_eq_null_paths`, and the
-        OVER-ACCEPTANCE `null_ordering_accepted` (finding F30)
+        `qstring_constants_overrejected` (finding F33, known), `i64min_rem_overrejected` (a value), `null_eq_null_paths`
+        (`null == null` exists on the constant path only).  The former fourth exception, `null < null` folded although
+        pointers are not ordered (finding F30), was repaired by 9ae7b5c: `null_ordering_rejected`
       * `verify_code_return_type_iff`, `verify_callback_parameter_type_iff`   rules D16 and D18
-  (b) SOUNDNESS of the model w.r.t. the specification: `model_sound_full_statement` is FALSE for the code as it is
-      (`model_sound_full_statement_false`: witness `b: null < null`, finding F30; a second witness is the scope leak of
-      finding F32/F40, exercised by the c05 stream).  What holds, for ALL expressions (every expression form of the
-      language: identifiers, literals, arrays, member access, subscripts, calls of methods and builtins, assignments,
-      unary/binary/logical operators, `as`, `?:`) that contain no ordering comparison of two `null` literals:
-      `model_sound_partial` — if the walk accepts the expression then the specification types it, with exactly the type
-      of the operand the walk produced; `binding_expression_sound` — the same from `tir::build` for a one-expression
-      binding or callback.  NOT covered by a theorem: statements (`let`/`if`/`switch`/`return`; the result type of a
-      block body); they are covered by the c05 stream (spec verdict vs the real compiler, model verdict vs the real
-      compiler, IR re-check).
+  (b) SOUNDNESS of the model w.r.t. the specification (accepted ⇒ typed), for all inputs, no exclusion:
+      * `model_sound_expr`, `model_sound_expr_list`: EVERY expression the walk accepts is typed by the specification with
+        exactly the type of the operand the walk produced (all expression forms; since the repair of F30 without the
+        former `null < null` exclusion; the assignment case follows the repaired order 5ccd31a: left-hand side first)
+      * `model_sound_stmt`, `model_sound_stmts`: EVERY statement (list) the walk accepts is accepted by the specification's
+        statement checker — expressions typed, `let`/`const` per D14 with the declared or deduced type and an assignable
+        initial value, conditions bool, `case` values comparable with the discriminant, `break` only in a switch — and
+        afterwards the walk's map of local names agrees with the specification's scope: JavaScript block scoping (D15),
+        which holds since the repairs a011e08 (finding F32, `if` branches) and 2a702d4 (finding F40, `switch` clauses):
+        `declared_in_block_branch_or_clause_not_visible_after`
+      * from the top: `binding_expression_sound`, `program_statements_sound` (tir::build / build_callback produce code ⇒
+        statement checker accepts), `callback_statement_sound` (accepted callback statement ⇒ `wellTyped`),
+        `binding_sound_up_to_result_clause` (accepted binding ⇒ the specification finds no error except possibly in the
+        RESULT clause D16)
+      `model_sound_full_statement` (accepted ⇒ not ill-typed, for whole bindings and callbacks) is neither refuted any more
+      (its F30 and F32/F40 witnesses are repaired) nor proved completely: open are (i) the result clause of a binding — the
+      checker decides it on the return terminators of the IR after finalize_completion_values (`verify_code_return_type_iff`),
+      the specification on the `return`s and tail expressions of the source; no theorem connects the two — and (ii) the
+      parameters of a callback FUNCTION against the signal (D18: needs the invariant that the body leaves
+      `parameter_count` alone).  Both are covered by the c05 stream (spec verdict vs real compiler on ~6 650 programs per
+      quick run, model verdict vs real compiler on all of them).
   (c) non-vacuity: examples at the end.
 -/
 import QV.Proofs.TypingRules
 import QV.Proofs.TypingConst
 import QV.Proofs.TypingChecks
 import QV.Proofs.TypingSound2
+import QV.Proofs.TypingStmt
 
 set_option linter.unusedSimpArgs false
 
@@ -149,17 +162,17 @@ theorem constant_unary_type (F : FloatOps) (op : UnaryOp) (a c : ConstantValue) 
     unaryType op a.typeDesc = some c.typeDesc :=
   cevalUnary_type F op a c h
 
-/-- constant path, binary: apart from `QString`-typed constants (over-rejected) and `null < null` (over-accepted) the
-    folder raises a type error exactly where the table has no entry -/
+/-- constant path, binary: apart from `QString`-typed constants (over-rejected, F33) the folder raises a type error
+    exactly where the table has no entry -/
 theorem constant_binary_iff (F : FloatOps) (env : Env) (op : BinaryOp) (l r : ConstantValue) (hlog : ∀ o, op ≠ .logical o)
-    (hq : isQString l = false ∧ isQString r = false) (hn : nullOrdering op l r = false) :
+    (hq : isQString l = false ∧ isQString r = false) :
     typeOkB (cevalBinary F op l r) = (binaryType env op l.typeDesc r.typeDesc).isSome :=
-  cevalBinary_okB F env op l r hlog hq hn
+  cevalBinary_okB F env op l r hlog hq
 
 theorem constant_binary_type (F : FloatOps) (env : Env) (op : BinaryOp) (l r c : ConstantValue) (hlog : ∀ o, op ≠ .logical o)
-    (hn : nullOrdering op l r = false) (h : cevalBinary F op l r = .ok c) :
+    (h : cevalBinary F op l r = .ok c) :
     binaryType env op l.typeDesc r.typeDesc = some c.typeDesc :=
-  cevalBinary_type F env op l r c hlog hn h
+  cevalBinary_type F env op l r c hlog h
 
 /-- the folder IS what `visit_*_expression` runs on constant operands, the emitter on all others -/
 theorem paths (F : FloatOps) (env : Env) (b : Builder) :
@@ -206,15 +219,14 @@ theorem null_eq_null_paths (F : FloatOps) (env : Env) (b : Builder) :
     okB (emitBinaryExpression env b (.cmp .eq) (.const .nullPointer) (.const .nullPointer)) = false :=
   null_eq_null F env b
 
-/-- (4) FINDING F30, over-ACCEPTANCE: `null < null`, `<=`, `>`, `>=` are folded although pointers are not ordered — the
-    table has no entry, and the emitter refuses an ordering comparison for every pair of pointer operands -/
-theorem null_ordering_accepted (F : FloatOps) (env : Env) :
-    cevalBinary F (.cmp .lt) .nullPointer .nullPointer = .ok (.bool false) ∧
-    cevalBinary F (.cmp .le) .nullPointer .nullPointer = .ok (.bool true) ∧
-    binaryType env (.cmp .lt) .nullPointer .nullPointer = none ∧
-    binaryType env (.cmp .le) .nullPointer .nullPointer = none :=
-  null_ordering_accepted_by_const_path F env
+/-- finding F30 (repaired by 9ae7b5c; before it `null < null` was folded to `false`, `null <= null` to `true`): an
+    ordering comparison of two `null` literals is a type error on the constant path, as the table says … -/
+theorem null_ordering_rejected (F : FloatOps) (env : Env) (c : CmpOp) (hc : isOrdering c = true) :
+    typeOkB (cevalBinary F (.cmp c) .nullPointer .nullPointer) = false ∧
+    binaryType env (.cmp c) .nullPointer .nullPointer = none :=
+  null_ordering_rejected_by_const_path F env c hc
 
+/-- … and as the dynamic path says for every pair of pointer operands -/
 theorem pointer_ordering_rejected (env : Env) (b : Builder) (c : CmpOp) (hc : isOrdering c = true)
     (l r : Operand) (k : TypeKind) (hk : ptrK k = true) (hl : l.typeDesc = .concrete k ∨ l.typeDesc = .nullPointer)
     (hr : r.typeDesc = .concrete k ∨ r.typeDesc = .nullPointer) (hnn : ¬ (l.typeDesc = .nullPointer ∧ r.typeDesc = .nullPointer)) :
@@ -238,7 +250,8 @@ theorem verify_callback_parameter_type_iff (env : Env) (desc : MethodInfo) (code
 
 /-! ## (b) soundness of the checker's model w.r.t. the specification -/
 
-/-- FULL statement: whatever the checker accepts is not ill-typed for the specification -/
+/-- FULL statement: whatever the checker accepts is not ill-typed for the specification (see the header for what of it is
+    proved below and what is left to the c05 stream) -/
 def model_sound_full_statement : Prop :=
   (∀ (c : Ctx) (propTy : TypeKind) (p : Program) (e : Err),
       acceptsBinding c propTy p = true → checkBinding (worldOf c) propTy p ≠ .illTyped e) ∧
@@ -249,58 +262,68 @@ def noFloat : FloatOps :=
   { neg := id, add := fun a _ => a, sub := fun a _ => a, mul := fun a _ => a, div := fun a _ => a, rem := fun a _ => a,
     eq := fun a b => a == b, lt := fun a b => a < b, le := fun a b => a ≤ b }
 
-/-- the witness of finding F30: `b: null < null` -/
-def f30Ctx : Ctx := { env := { classes := [], enums := [], types := [] }, F := noFloat, objects := [], thisObj := none }
-def f30Program : Program := .stmt (.expr (.binary .lessThan .null .null))
-
-/-- the walk of the witness: the comparison is folded to the constant `false` -/
-theorem f30_walk : (walkProgram f30Ctx false f30Program).run {} =
-    (some (), { b := visitExpressionStatement {} (.const (.bool false)) }) := by
-  simp only [f30Program, walkProgram, walkStmt, walkRvalue, walkExpr, BinaryToken.toOp]
-  rfl
-
-theorem f30_accepted_by_the_checker : acceptsBinding f30Ctx .bool f30Program = true := by
-  unfold acceptsBinding build
-  rw [f30_walk]
-  decide +kernel
-theorem f30_ill_typed : checkBinding (worldOf f30Ctx) .bool f30Program = .illTyped .operandType := by decide +kernel
-
-/-- the full statement does NOT hold for the code as it is (finding F30) -/
-theorem model_sound_full_statement_false : ¬ model_sound_full_statement := by
-  intro h
-  exact h.1 f30Ctx .bool f30Program .operandType f30_accepted_by_the_checker f30_ill_typed
-
-/-- PARTIAL (all expression forms; only `null < null` excluded): if the walk accepts an expression in a state whose
-    local names agree with a scope, the specification types it in that scope with EXACTLY the type of the operand
-    the walk produced; and the walk leaves the name map alone and only appends temporaries -/
-theorem model_sound_partial (c : Ctx) (e : Expr) (hn : nno e = true) (s s' : WState) (sc : Scope) (a : Operand)
+/-- EXPRESSIONS, all forms, no exclusion: if the walk accepts an expression in a state whose local names agree with a
+    scope, the specification types it in that scope with EXACTLY the type of the operand the walk produced; the walk
+    leaves the name map alone and only appends temporaries -/
+theorem model_sound_expr (c : Ctx) (e : Expr) (s s' : WState) (sc : Scope) (a : Operand)
     (hinv : Inv s sc) (h : run (walkRvalue c e) s = (some a, s')) :
     typeOf (worldOf c) sc e = .ok a.typeDesc ∧ s'.locals = s.locals ∧ Inv s' sc := by
-  obtain ⟨hext, ht⟩ := rvalue_of_expr (sound_expr c e hn) s s' sc a hinv h
+  obtain ⟨hext, ht⟩ := rvalue_of_expr (sound_expr c e) s s' sc a hinv h
   exact ⟨ht, hext.locals, hinv.ext hext⟩
 
 /-- the same for lists of arguments / array elements -/
-theorem model_sound_partial_list (c : Ctx) (es : List Expr) (hn : nnoList es = true) (s s' : WState) (sc : Scope)
+theorem model_sound_expr_list (c : Ctx) (es : List Expr) (s s' : WState) (sc : Scope)
     (as : List Operand) (hinv : Inv s sc) (h : run (walkRvalues c es) s = (some as, s')) :
     typeOfList (worldOf c) sc es = .ok (as.map (·.typeDesc)) :=
-  (sound_rvalues c es hn s s' sc as hinv h).2
+  (sound_rvalues c es s s' sc as hinv h).2
+
+/-- STATEMENTS, all forms (`let`/`const`, blocks, `if`/`else`, `switch`/`case`/`default`/`break`, `return`, expression
+    statements), inside or outside a switch: if the walk accepts the statement, the specification's statement checker
+    accepts it — for either setting of the flags that only steer the collection of result types — and the walk's name
+    map afterwards agrees with the scope the specification computes -/
+theorem model_sound_stmt (c : Ctx) (bl : Option Nat) (st : Stmt) (s s' : WState) (sc : Scope)
+    (hinv : Inv s sc) (h : run (walkStmt c bl st) s = (some (), s')) (last prev : Bool) :
+    ∃ o, checkStmt (worldOf c) bl.isSome last prev sc st = .ok o ∧ Inv s' o.scope :=
+  (sound_stmt c bl st s s' sc hinv h).2 last prev
+
+theorem model_sound_stmts (c : Ctx) (bl : Option Nat) (ss : List Stmt) (s s' : WState) (sc : Scope)
+    (hinv : Inv s sc) (h : run (walkStmts c bl ss) s = (some true, s')) (last prev : Bool) :
+    ∃ o, checkStmts (worldOf c) bl.isSome last prev sc ss = .ok o ∧ Inv s' o.scope :=
+  (sound_stmts c bl ss s s' sc hinv h).2 last prev
+
+/-- SCOPING (D15; findings F32 and F40, repaired by a011e08 and 2a702d4): after a block, an `if` or a `switch` the visible
+    names are exactly those visible before it — a name declared in the block, in a branch (braced or not) or in a `case`
+    clause is not visible afterwards -/
+theorem declared_in_block_branch_or_clause_not_visible_after (c : Ctx) (bl : Option Nat) (st : Stmt)
+    (hst : (∃ ss, st = .block ss) ∨ (∃ cnd a b, st = .if_ cnd a b) ∨ (∃ v cl, st = .switch v cl))
+    (s s' : WState) (sc : Scope) (hinv : Inv s sc) (h : run (walkStmt c bl st) s = (some (), s')) (n : String) :
+    (s'.locals.get? n).isSome = (s.locals.get? n).isSome := by
+  have h' := compound_scope_restored c bl st hst s s' sc hinv h
+  rw [h'.visible_iff, hinv.visible_iff]
 
 /-- from the top: a one-expression binding or callback for which `tir::build` produces code is typed by the specification -/
-theorem binding_expression_sound (c : Ctx) (callback : Bool) (e : Expr) (hn : nno e = true)
+theorem binding_expression_sound (c : Ctx) (callback : Bool) (e : Expr)
     (h : (build c callback (.stmt (.expr e))).code.isSome = true) : ∃ t, typeOf (worldOf c) [] e = .ok t :=
-  build_expr_sound c callback e hn h
+  build_expr_sound c callback e h
 
-/-- the fragment condition is only about the literal `null`: an expression without `null` is in the fragment -/
-theorem fragment_excludes_only_null_ordering (tok : BinaryToken) (l r : Expr) (hl : nno l = true) (hr : nno r = true)
-    (h : ¬ (isOrderingTok tok = true ∧ l = .null ∧ r = .null)) : nno (.binary tok l r) = true := by
-  simp only [nno, hl, hr, Bool.and_true, Bool.not_eq_true', Bool.and_eq_false_iff]
-  by_cases h1 : isOrderingTok tok = true
-  · by_cases h2 : l = .null
-    · by_cases h3 : r = .null
-      · exact absurd ⟨h1, h2, h3⟩ h
-      · right; cases r <;> simp_all [isNullLit]
-    · left; right; cases l <;> simp_all [isNullLit]
-  · left; left; simpa using h1
+/-- from the top: any statement program for which `tir::build` / `build_callback` produce code passes the statement checker -/
+theorem program_statements_sound (c : Ctx) (callback : Bool) (st : Stmt)
+    (h : (build c callback (.stmt st)).code.isSome = true) (last prev : Bool) :
+    ∃ o, checkStmt (worldOf c) false last prev [] st = .ok o :=
+  build_stmt_sound c callback st h last prev
+
+/-- the second half of `model_sound_full_statement` for callbacks given as statements -/
+theorem callback_statement_sound (c : Ctx) (desc : MethodInfo) (st : Stmt) (h : acceptsCallback c desc (.stmt st) = true) :
+    checkCallback (worldOf c) desc.args (.stmt st) = .wellTyped :=
+  callback_stmt_sound c desc st h desc.args
+
+/-- the first half of `model_sound_full_statement` up to the result clause D16 -/
+theorem binding_sound_up_to_result_clause (c : Ctx) (propTy : TypeKind) (st : Stmt)
+    (h : acceptsBinding c propTy (.stmt st) = true) :
+    checkBinding (worldOf c) propTy (.stmt st) = .wellTyped ∨ checkBinding (worldOf c) propTy (.stmt st) = .unspecified ∨
+    checkBinding (worldOf c) propTy (.stmt st) = .illTyped .resultsDisagree ∨
+    checkBinding (worldOf c) propTy (.stmt st) = .illTyped .resultMismatch :=
+  binding_stmt_sound c propTy st h
 
 /-! ## (c) non-vacuity -/
 
@@ -330,9 +353,18 @@ example : checkCallback exWorld [] (.stmt (.expr (.assign (.member (.ident "x") 
     .illTyped .readOnlyProperty := by decide +kernel
 example : checkCallback exWorld [] (.stmt (.lexical .let_ [{ name := "q", ty := some ["B"], value := some (.ident "x") }])) =
     .illTyped .assignMismatch := by decide +kernel
--- the hypotheses of model_sound_partial are satisfiable: the initial state agrees with the empty scope
+-- the hypotheses of model_sound_expr / model_sound_stmt are satisfiable: the initial state agrees with the empty scope
 example : Inv {} [] := inv_init
-example : nno (.binary .add (.member (.ident "x") "i") (.integer 1)) = true := by decide
+-- scoping (D15): a name declared directly in an `if` branch or in a `case` clause is out of scope afterwards
+example : checkBinding exWorld .int (.stmt (.block [.if_ (.binary .equal (.member (.ident "x") "i") (.integer 1))
+    (.lexical .let_ [{ name := "v", ty := none, value := some (.integer 2) }]) none, .return_ (some (.ident "v"))])) =
+    .illTyped .undefinedName := by decide +kernel
+example : checkBinding exWorld .int (.stmt (.block [.switch (.member (.ident "x") "i")
+    [(some (.integer 1), [.lexical .let_ [{ name := "v", ty := none, value := some (.integer 2) }], .break_ false])],
+    .return_ (some (.ident "v"))])) = .illTyped .undefinedName := by decide +kernel
+example : checkBinding exWorld .int (.stmt (.block [.switch (.member (.ident "x") "i")
+    [(some (.integer 1), [.lexical .let_ [{ name := "v", ty := none, value := some (.integer 2) }]]),
+     (some (.integer 2), [.return_ (some (.ident "v"))])], .return_ (some (.integer 0))])) = .wellTyped := by decide +kernel
 -- the tables are not empty and not full
 example : binaryType exEnv (.arith .add) .int .constInteger = some .int := by decide +kernel
 example : binaryType exEnv (.arith .add) .int .double = none := by decide +kernel
